@@ -53,10 +53,20 @@ def run(tier, seed, replay):
     cases, derive_of, enum_of = [], {}, {}
     for k in range(ncase):
         tr = rng.choice(F.DISPLAY_TRAITS[:-1] + ["Display", "Display", "Debug"])
-        c = R.gen_struct_case(rng, k, tr)
+        if rng.random() < 0.3 and tr not in ("Debug", "Pointer"):
+            # enums: an enum-level format that wraps (or, for a non-Display derive, merely mentions `_variant`) is an
+            # attribute-driven, non-delegating format; without one every variant follows the struct rules
+            c = R.gen_enum_case(rng, k, tr, with_flags=True)
+            if c.meta["must_fail"]:
+                continue
+            c.value = "; ".join(x["val"] for x in c.values)
+            enum_of[k] = True
+            chk.bump("rt:enum-mode:" + c.meta["mode"])
+        else:
+            c = R.gen_struct_case(rng, k, tr)
+            enum_of[k] = False
         cases.append(c)
         derive_of[k] = tr
-        enum_of[k] = False
     out, err = R.build_and_run("c05_rt", cases, derive_of, enum_of, chk)
     if out is None:
         chk.violation("rt-corpus-does-not-compile", {"stderr": err[-4000:]},
@@ -72,7 +82,7 @@ def run(tier, seed, replay):
                 chk.bump("rt:" + tag.split(":")[0])
                 if not eq:
                     chk.violation("flags-" + ("not-passed" if tag.startswith("flags-pass") else "not-inert"),
-                                  {"decl": c.decl, "value": c.value, "outer_spec": tag.split(":", 1)[1], "derived": d, "expected": r,
+                                  {"decl": c.decl, "value": c.value, "outer_spec": tag.split(":", 1)[1].split("@")[0], "derived": d, "expected": r,
                                    "meta": c.meta},
                                   "caller's flags %s: %s gives %s, expected %s" % (tag, c.decl, d, r))
                 elif nobs % 97 == 0:
@@ -83,7 +93,8 @@ def run(tier, seed, replay):
         chk, st,
         rule="(1) generated Display-like/Debug items (structs+enums, 0-3 fields, literals with bare/modified/multiple placeholders, "
              "positional/named/aliased/expression args, raw idents, generics): model vs real expander (body shape, bounds, diagnostics) "
-             "and an independent regex reading of the property text vs the real body shape; (2) well-typed structs compiled with the "
+             "and an independent regex reading of the property text vs the real body shape; (2) well-typed structs and enums (with/without an enum-level format, variants with own attributes, single "
+             "fields, one variant possibly of a type parameter) compiled with the "
              "real macro: format!(\"{:<outer spec>}\", v) vs the same spec applied to the inner argument (delegating) or vs the flag-free "
              "text (inert), outer specs over fill/align/sign/#/0/width/precision; non-trivial = has a format attribute or a field; "
              "distinct by item source / (decl, spec)",
